@@ -224,6 +224,9 @@ class FaultInjector:
             if self.fired_call is None:
                 self.fired_call = f'{kind}({p})'
                 self.fired_phase = self.phase
+            if kind in ('os.fstat', 'read'):
+                # as from the kernel: descriptor-based calls name no file
+                raise OSError(self.err, os.strerror(self.err))
             raise OSError(self.err, os.strerror(self.err), p)
 
     def __enter__(self):
